@@ -12,7 +12,7 @@
    The correspondence run evaluates key_move_b (it must be true) on every legal move it generates; that every legal move
    of every position of D passes it is not proved. *)
 From Coq Require Import NArith ZArith List Bool.
-From Rawr Require Import Consts Bits Magic Position MoveGen MakeMove MakeStages Rules Abs KeySpec KeyFacts HashFacts KeyAbs KeyMove.
+From Rawr Require Import Consts Bits Magic Position MoveGen MakeMove MakeStages Rules Abs KeySpec KeyFacts HashFacts KeyAbs KeyMove GenSane.
 Import ListNotations.
 Local Open Scope N_scope.
 
@@ -49,6 +49,12 @@ Theorem C04_key_invariant_step :
   forall p m, key_move_b p m = true -> hash (makemove true p m) = calculate_hash (makemove true p m).
 Proof. exact key_invariant_step. Qed.
 
+(* NO per-move premise: on a position passing good_pos_b, every generated move keeps "stored key = recomputed key" *)
+Theorem C04_every_generated_move_keeps_the_key : forall p m,
+  good_pos_b p = true -> In m (legal_moves p) ->
+  predict_hash p m = calculate_hash (makemove true p m) /\ hash (makemove true p m) = calculate_hash (makemove true p m).
+Proof. intros p m H Hm. split; [exact (good_pos_keys true p m H Hm)|exact (good_pos_key_invariant p m H Hm)]. Qed.
+
 (* non-vacuous: the start position, a double push, a knight move; castling and en passant reached by play *)
 Definition after (ms : list Mv) : Position := fold_left (makemove true) ms startpos.
 Definition castle_line : list Mv :=
@@ -66,3 +72,4 @@ Print Assumptions C04_key_is_a_function_of_the_position.
 Print Assumptions C04_predicted_key_is_recomputed_key.
 Print Assumptions C04_makemove_stores_prediction.
 Print Assumptions C04_key_invariant_step.
+Print Assumptions C04_every_generated_move_keeps_the_key.
